@@ -41,7 +41,7 @@ PROFILE.update(p_mocap=0.5, delays=0.2)
 
 
 def cases(tier, seed):
-  n = 90 if tier == "quick" else 1100
+  n = 40 if tier == "quick" else 1100  # every new model costs 10-20 s of kernel specialisation when the cache is cold
   return [{"id": f"k{seed}_{i}", "seed": seed * 100000 + 50000 + i, "nkey": 1 + i % 6, "nscen": 5} for i in range(n)]
 
 
